@@ -498,6 +498,11 @@ func (uconn *UConn) ApplyConfig() error {
 	// removed from uconn.Extensions left behind, so that the client does not accept an ALPN
 	// protocol the re-marshaled ClientHello no longer offers.
 	uconn.HandshakeState.Hello.AlpnProtocols = nil
+	// The server name indicated to the server is the one an SNIExtension puts on the wire
+	// (its writeToUConn sets Hello.ServerName). Without such an extension - after
+	// RemoveSNIExtension, or with a spec that has none - no SNI is sent, so the connection
+	// must not report the Config.ServerName the default hello started from.
+	uconn.HandshakeState.Hello.ServerName = ""
 	for _, ext := range uconn.Extensions {
 		err := ext.writeToUConn(uconn)
 		if err != nil {
